@@ -66,12 +66,10 @@ CLAIMED = {
              "through exact rationals), FULL: an error operand is returned unchanged, left first (13 operators); "
              "C10_total/C10_closed: + - * / unary-minus & and the six comparisons return, on every pair of "
              "scalars inside the model, a value of the right kind (logical / text / number or #VALUE!, #DIV/0!) "
-             "and never raise, the model's decidable domain predicate op_modelled being exact for comparisons "
-             "and & (C10_unmodelled_exact: outside it the model answers Unmodelled and nothing else: case "
-             "mapping outside ASCII/Latin-1/CJK/pictographs; repr of a non-integral float outside the 15-digit "
-             "domain) and sufficient for arithmetic (text that is ASCII and whose float() is not an inf/nan "
-             "spelling or an exponent beyond 300; C10_arith_non_ascii_unmodelled gives the converse for "
-             "non-ASCII text); exactly one of <,=,> holds and <>,<=,>= are the complements for any two "
+             "and never raise; the model's decidable domain predicate op_modelled is EXACT for all 13 operators "
+             "(C10_unmodelled_exact: outside it the model answers Unmodelled and nothing else — comparisons: "
+             "case mapping outside ASCII/Latin-1/CJK/pictographs; &: repr of a non-integral float outside the "
+             "15-digit domain; arithmetic: non-ASCII text, inf/nan spellings, exponents beyond 300); exactly one of <,=,> holds and <>,<=,>= are the complements for any two "
              "non-error scalars incl. blank; numbers < text < logicals; case-insensitive text equality; blank "
              "equals 0, \"\" and FALSE; on non-blank operands <= and < are transitive, <= is antisymmetric and "
              "total, = is an equivalence (C10_le_transitive, C10_lt_transitive, C10_le_antisymmetric, "
@@ -84,7 +82,7 @@ CLAIMED = {
              "of non-error scalars (blank empty, TRUE/FALSE, integers, text, floats by repr); "
              "C10_concat_integral_float: every integral float renders without .0. PARTIAL: "
              "C10_total_pow_partial — ^ is total (number, #VALUE!, #DIV/0!, #NUM!) exactly when the coerced "
-             "exponent is integral or the base is negative (pow_modelled); a non-integral exponent on a "
+             "exponent is integral or the base is negative (pow_modelled, C10_pow_domain); a non-integral exponent on a "
              "non-negative base is irrational in general and outside the exact-arithmetic model, there only "
              "the oracle judges the implementation. REFUTED in the model and the implementation alike "
              "(advisory, coq/Refuted/C10_trans_blank.v): through a blank operand neither <= nor = is "
